@@ -986,6 +986,8 @@ class Executor(Engine):
                 # language-level guarantee for references / this: non-null, and the object does not
                 # wrap around the end of the address space
                 n = max([x[1] for x in attrs if isinstance(x, tuple) and x[0] == 'deref'] or [0])
+                if 'sret' in attrs or 'byval' in attrs:
+                    n = max(n, self.mod.size_of(rt.pointee))
                 if n:
                     st.pc.append(z3.And(a != BV(0, self.pbits), z3.ULE(a, BV((1 << self.pbits) - 1 - n - 64, self.pbits))))
             else:
